@@ -79,7 +79,17 @@ func RunRetentionCase(seed int64, workDir string) *HistResult {
 		res.Inconclusive = err.Error()
 		return res
 	}
+	// an embedding application may run without an output store (the project's own tests do): saves must work all the same
+	noLogs := seed%8 == 5
+	var outI taskctl.OutputStore = out
+	if noLogs {
+		outI = nil
+		res.sit("C12", "runner without output store")
+	}
 	writeLogs := func(id string, tasks []string, tag string) {
+		if noLogs {
+			return
+		}
 		for _, t := range tasks {
 			for _, stream := range []string{"stdout", "stderr"} {
 				w, err := out.Writer(id, t, stream)
@@ -145,7 +155,7 @@ func RunRetentionCase(seed int64, workDir string) *HistResult {
 		return res
 	}
 	rec := &core.RecStore{Inner: js}
-	sys, err := core.NewSys(gen.BuildDefs(specs), rec, out)
+	sys, err := core.NewSys(gen.BuildDefs(specs), rec, outI)
 	if err != nil {
 		res.Inconclusive = err.Error()
 		return res
@@ -347,7 +357,7 @@ func RunRetentionCase(seed int64, workDir string) *HistResult {
 		finalIDs[fv.Jobs[i].ID] = true
 	}
 	js2, _ := store.NewJSONDataStore(dataDir)
-	sys2, err := core.NewSys(gen.BuildDefs(curSpecs), js2, out)
+	sys2, err := core.NewSys(gen.BuildDefs(curSpecs), js2, outI)
 	if err == nil {
 		v2 := sys2.Snapshot(-1)
 		if len(v2.Jobs) != len(finalIDs) {
